@@ -4,6 +4,7 @@ CONSTANTS
   MaxSpurious = 1
   FORWARD_WAKER = TRUE
   READY_DRAINS = TRUE
+  FILTER_MODE = "none"
 INVARIANTS TypeOK PrefixInv QueueInv DoneInv
 PROPERTIES Terminates EveryPushDelivered AllDelivered
 CHECK_DEADLOCK FALSE
